@@ -129,7 +129,9 @@ def run(prop: str, mod, rep: Report):
               dict(id=f"{prop}-GLOBAL-C", **{"global": "C"}, what="whole package with inverse spellings (function -> method form, max argument order)"),
               dict(id=f"{prop}-GLOBAL-D", **{"global": "D"}, what="whole package with every if/else swapped under the negated condition"),
               dict(id=f"{prop}-GLOBAL-E", **{"global": "E"}, what="whole package with every returned expression bound to a temporary first"),
-              dict(id=f"{prop}-GLOBAL-F", **{"global": "F"}, what="whole package with De Morgan applied to every compound if-condition")]
+              dict(id=f"{prop}-GLOBAL-F", **{"global": "F"}, what="whole package with De Morgan applied to every compound if-condition"),
+              dict(id=f"{prop}-GLOBAL-G", **{"global": "G"}, what="whole package with nested call arguments bound to temporaries first (A-normal form)"),
+              dict(id=f"{prop}-GLOBAL-H", **{"global": "H"}, what="whole package with list/dict comprehensions rewritten as insertion loops")]
     R = rep.rule("SELFVAL", "seeded mutants are reported by the named rule; behaviour-preserving twins leave the verdict set unchanged")
     base = rep.verdict_set()
     from .repo import REPO_ROOT
